@@ -302,6 +302,11 @@ def serverSupported (name : String) : Bool :=
 def lookup (cfg : List (String × Mech)) (name : String) : Option (String × Mech) :=
   cfg.find? (fun m => name == m.1 && serverSupported m.1)
 
+/-- the `<mechanisms/>` list the receiving side writes: the configured names it supports, in
+the configured order -/
+def advertised (cfg : List (String × Mech)) : List String :=
+  (cfg.map (·.1)).filter serverSupported
+
 /-- what one peer element does to the receiving loop: end it, or send a challenge and go on
 with the (possibly new) negotiator -/
 inductive SOut
@@ -382,6 +387,47 @@ def serverSessionW (cfg : List (String × Mech)) (budget : Nat) : List SEv → S
   | .space :: _ => { err := .notCalled, consumed := 1 }
   | .otherNs :: _ => { err := .notCalled, consumed := 1 }
   | peer => serverLoopW cfg none budget peer
+
+/-! ## many sessions on one feature value
+
+A receiving entity serves all its connections with one `xmpp.SASLServer(…)` value.  The model
+of that is a family of sessions, each with its own peer script, advanced one peer element at
+a time in whatever order the scheduler picks.  A session's state is what `negotiateServer`
+keeps in local variables (`SCur`, what was written, the permission verdicts); nothing is
+shared — which is what `C03_sessions_independent` states and what the concurrent runs and the
+regenerated fact `saslClosureWrites` check against the code. -/
+
+/-- one session in small steps -/
+inductive SSess
+  | running (cur : Option SCur) (rest : List SEv) (sent : List SSent) (perms : List PermCall) (n : Nat)
+  | finished (r : SRes)
+
+/-- prefix what was done before the last step to its result -/
+def SRes.prefixed (r : SRes) (sent : List SSent) (perms : List PermCall) (n : Nat) : SRes :=
+  { r with sent := sent ++ r.sent, perms := perms ++ r.perms, consumed := r.consumed + n }
+
+/-- one scheduling quantum of a session: handle the next peer element -/
+def SSess.step (cfg : List (String × Mech)) : SSess → SSess
+  | .finished r => .finished r
+  | .running cur [] sent perms n =>
+    .finished (SRes.prefixed { err := .eof, used := cur.map (·.name), hist := (cur.map (·.hist)).getD [] } sent perms n)
+  | .running cur (ev :: rest) sent perms n =>
+    match sevent cfg cur ev with
+    | .stop r => .finished (r.prefixed sent perms n)
+    | .cont c resp ps => .running (some c) rest (sent ++ [.challenge resp]) (perms ++ ps) (n + 1)
+
+def SSess.start (peer : List SEv) : SSess := .running none peer [] [] 0
+
+/-- the system: the sessions, and a schedule naming which session moves next (an index that
+names no session is a stutter) -/
+def runSched (cfg : List (String × Mech)) : List SSess → List Nat → List SSess
+  | ss, [] => ss
+  | ss, i :: sched => runSched cfg (ss.modify i (SSess.step cfg)) sched
+
+/-- a session run alone for `k` quanta -/
+def SSess.iter (cfg : List (String × Mech)) : Nat → SSess → SSess
+  | 0, s => s
+  | k + 1, s => SSess.iter cfg k (s.step cfg)
 
 /-! ## `sasl.Plain` on the receiving side, with the permission callback -/
 
